@@ -156,6 +156,9 @@ type Engine struct {
 	// the entire run instead of trying each digit.
 	digitRunSkipSafe bool
 
+	// digitRunMask has bit d set when '0'+d belongs to that leading class.
+	digitRunMask uint16
+
 	// compiledStrategy is the strategy selected at compile time. SetLongest(true)
 	// switches strategy to UseNFA and SetLongest(false) restores this one.
 	compiledStrategy Strategy
@@ -349,4 +352,21 @@ func (e *Engine) putSearchState(state *SearchState) {
 	if verifhook.On {
 		verifhook.Emit("pool.put", int(uintptr(unsafe.Pointer(state))))
 	}
+}
+
+// skipDigitRun returns the position after the run of leading-class digits that
+// contains digitPos, or digitPos+1 when the run must not be skipped.
+func (e *Engine) skipDigitRun(haystack []byte, digitPos int) int {
+	pos := digitPos + 1
+	if !e.digitRunSkipSafe || !e.inDigitRunClass(haystack[digitPos]) {
+		return pos
+	}
+	for pos < len(haystack) && e.inDigitRunClass(haystack[pos]) {
+		pos++
+	}
+	return pos
+}
+
+func (e *Engine) inDigitRunClass(b byte) bool {
+	return b >= '0' && b <= '9' && e.digitRunMask&(1<<uint(b-'0')) != 0
 }
